@@ -593,6 +593,15 @@ func makeVal(typ string, seed uint64) reflect.Value {
 		}
 	}
 	switch typ {
+	case "complex128":
+		if !zero {
+			v.SetComplex(complex(float64(int64(r.next()%401)-200)/4, float64(int64(r.next()%401)-200)/4))
+		}
+		return v
+	case "Color":
+		// a TextUnmarshaler (text must start with '#', so never empty)
+		v.SetString(fmt.Sprintf("#%06x", r.next()&0xffffff))
+		return v
 	case "time.Duration":
 		if !zero {
 			v.SetInt(int64(time.Duration(r.next()%100000) * time.Millisecond))
@@ -699,6 +708,8 @@ func textOf(v reflect.Value) string {
 		return strconv.FormatUint(v.Uint(), 10)
 	case reflect.Float32, reflect.Float64:
 		return floatText(v.Float())
+	case reflect.Complex64, reflect.Complex128:
+		return strconv.FormatComplex(v.Complex(), 'g', -1, 128)
 	case reflect.String:
 		return v.String()
 	case reflect.Slice:
